@@ -36,6 +36,9 @@ EXTRA_VALUES = ["foo", "bar", "Foo_Bar", "foo-bar", "foo.bar", "baz"]
 VERSION_VARS = ("python_version", "python_full_version")
 # (major, minor) bases; every run picks a small sub-pool so that literals collide
 VERSION_BASES = [(2, 7), (3, 0), (3, 5), (3, 6), (3, 7), (3, 8), (3, 9), (3, 10), (3, 11), (4, 0)]
+# PEP 345 style spellings that packaging (and the library's patched tokenizer) accept for the same variable
+NAME_ALIASES = {"os_name": "os.name", "sys_platform": "sys.platform", "platform_machine": "platform.machine",
+                "platform_python_implementation": "python_implementation"}
 REFLECT = {"<": ">", "<=": ">=", ">": "<", ">=": "<=", "==": "==", "!=": "!=", "~=": "~=",
            "in": "in", "not in": "not in"}
 ORDER_OPS = [">=", "<", "==", "!=", ">", "<=", "~="]
@@ -75,9 +78,13 @@ def render(n, style=None):
     wide = style.get("sp", False)
     par = style.get("par", False)
 
+    alias = style.get("alias", False)
+
     def r(n, parent):
         if is_atom(n):
             _, name, op, value, flipped = n
+            if alias:
+                name = NAME_ALIASES.get(name, name)
             sp = "  " if wide else " "
             if flipped:
                 return f"{q}{value}{q}{sp}{REFLECT[op]}{sp}{name}"
@@ -707,7 +714,8 @@ def gen_scripts(rng, fault_class=None):
         for op in script:
             if op[0] == "parse":
                 # the aggressor renders with its own style half of the time
-                stl = style if roles[c] == "victim" or rng.random() < 0.5 else {"q": "'", "sp": rng.random() < 0.3, "par": rng.random() < 0.5}
+                stl = style if roles[c] == "victim" or rng.random() < 0.5 else {"q": "'", "sp": rng.random() < 0.3, "par": rng.random() < 0.5,
+                                                                                 "alias": rng.random() < 0.2}
                 op.append(render(op[1], stl))
     return {"config": cfg, "roles": roles, "scripts": scripts}
 
